@@ -31,6 +31,9 @@ type RecStorage struct {
 	// view of a storage from which a referenced slab has disappeared.  Hidden lists the slabs asked for.
 	HideLargeValues bool
 	Hidden          []atree.SlabID
+	// FailHits counts the injected Retrieve failures that fired.
+	FailHits   int
+	LastFailID atree.SlabID
 }
 
 var _ atree.SlabStorage = &RecStorage{}
@@ -60,6 +63,8 @@ func (r *RecStorage) Retrieve(id atree.SlabID) (atree.Slab, bool, error) {
 	r.Retrieves++
 	if r.FailRetrieve[id] || (r.FailRetrieveAt != 0 && r.Retrieves == r.FailRetrieveAt) {
 		r.EffsAtFail = len(r.Effs)
+		r.FailHits++
+		r.LastFailID = id
 		return nil, false, ErrInjected
 	}
 	s, ok, err := r.Inner.Retrieve(id)
